@@ -28,6 +28,7 @@ import (
 	"filippo.io/age/zverif/cli"
 	"filippo.io/age/zverif/keys"
 	"filippo.io/age/zverif/mon"
+	"filippo.io/age/zverif/refage"
 )
 
 type cliKey struct {
@@ -126,6 +127,11 @@ func cliStage(r *mon.Run, ps map[string]*party) {
 			}
 		}
 	}
+	// enc_ed1 with a sibling .pub holding the NEGATION of its key: the embedded
+	// public key is authoritative, so nothing may change
+	if ps["neg(enc_ed1)"] != nil {
+		cases = append(cases, cliCase{ks[0], "negated-key", "real", right}, cliCase{ks[0], "negated-key", "pub", right})
+	}
 	r.Set("cli_cases", len(cases))
 
 	type verdict struct {
@@ -152,6 +158,10 @@ func cliStage(r *mon.Run, ps map[string]*party) {
 		case "other-type":
 			os.WriteFile(filepath.Join(dir, "KEY.pub"), keys.Data(k.xtypePub), 0o644)
 			pubParty = k.xtype
+		case "negated-key":
+			np := ps["neg(enc_ed1)"]
+			os.WriteFile(filepath.Join(dir, "KEY.pub"), []byte("ssh-ed25519 "+base64.StdEncoding.EncodeToString(refage.SSHEd25519Wire(np.edPub))+" negated@verif\n"), 0o644)
+			pubParty = np
 		case "garbage":
 			os.WriteFile(filepath.Join(dir, "KEY.pub"), []byte("ssh-ed25519 not//base64 !!\n\x00\x01 garbage\n"), 0o644)
 		}
